@@ -77,6 +77,14 @@ pub fn vocab(lang: &str) -> Vec<&'static str> {
             "は\u{309a}ん", "き\u{3099}んこう", "ウ\u{3099}ァイオリン", "\u{fb2a}לום", "שלום", "ש\u{5c1}לום", "かっこう", "はん", "きんこう", "さくら", "すし",
             "てんぷら", "とうきょう", "おおさか", "metal", "mailbox", "がくせい", "ぱすた", "ばなな", "\u{212b}ngstrom", "\u{c5}ngstrom", "\u{1f71}λφα", "\u{3ac}λφα", "か\u{212b}",
         ],
+        "xc" => vec![
+            "über", "u\u{308}ber", "Über", "U\u{308}ber", "café", "cafe\u{301}", "CAFE\u{301}", "\u{212b}ngstrom", "\u{c5}ngstrom", "Ärger", "A\u{308}rger", "schön", "scho\u{308}n",
+            "metal", "mailbox", "yellow", "detector", "the", "of", "straße", "uber", "cafe", "ö", "o\u{308}", "möbel", "mo\u{308}bel", "naïve", "e\u{301}", "été", "e\u{301}te\u{301}",
+        ],
+        "xr" => vec![
+            "café", "cafe", "CAFÉ", "cafe\u{301}", "straße", "strasse", "STRASSE", "GROẞ", "groß", "smørrebrød", "smoerrebroed", "Øl", "øl", "été", "ete", "é", "ß", "ø",
+            "metal", "mailbox", "yellow", "detector", "the", "of", "über", "u\u{308}ber", "fußball", "fussball", "résumé", "resume",
+        ],
         "en" => vec![
             "the", "a", "an", "of", "to", "and", "in", "for", "with", "on", "at", "by", "metal", "mailbox", "yellow",
             "detector", "thesaurus", "router", "toothbrush", "batteries", "battery", "university", "universe",
